@@ -171,20 +171,9 @@ def _fixture_self_check(res: Result) -> None:
 # C14
 # ---------------------------------------------------------------------------
 
-def check_c14(idx: Index, tier: str, res: Result) -> None:
-    res.explanation = ("Static decision of the registry discipline in Model: (1) the agent list is never indexed by an agent "
-                       "id, (2) next_agent_id only ever grows by one per created agent and is handed to the factory before it "
-                       "grows, (3) every function that rebinds or mutates the agent list also updates the type map, clearing "
-                       "functions clear both, (4) the id-keyed queries look agents up by comparing ids.")
-    res.rules = ["KIND: AgentId vs ListPos at every <x>.agents[...] subscript", "MONO: writes to next_agent_id",
-                 "COUPDATE: writers of agents vs writers of agent_type_map", "QUERY: shape of agent()/agent_count()/delete_agents()"]
-    res.not_decided = ["agreement when a user's agent sets agent_type different from the factory key",
-                       "results of random_agents (random choice)"]
-    _fixture_self_check(res)
-    mcls = idx.cls(MODEL, "Model")
-    n = agent_subscripts(idx, res, "C14", MODEL)
-    res.extra["agents_subscripts"] = n
-
+def id_source_rules(idx: Index, res: Result, rule: str = "MONO") -> FuncInfo:
+    """Shared by C14 and C11: agent ids are unique for the life of the model - next_agent_id is initialised once, only ever grows by one,
+    is handed to the factory and incremented exactly once before the agent is appended.  Routing events by id relies on it."""
     # (2) monotone id source
     writes = []
     for fi in idx.all_funcs("BPTK_Py/"):
@@ -201,20 +190,20 @@ def check_c14(idx: Index, tier: str, res: Result) -> None:
     for fi, node in writes:
         if fi.qual == "Model.__init__":
             ok = isinstance(node, ast.Assign) and const_int(node.value) is not None
-            res.check("MONO", "Model.__init__ initialises next_agent_id", ok, fi.loc(node), fi.qual, norm_stmt(node),
-                      "next_agent_id is not initialised with an integer constant", key="MONO/Model.__init__/init")
+            res.check(rule, "Model.__init__ initialises next_agent_id", ok, fi.loc(node), fi.qual, norm_stmt(node),
+                      "next_agent_id is not initialised with an integer constant", key=rule + "/Model.__init__/init")
         else:
             ok = isinstance(node, ast.AugAssign) and isinstance(node.op, ast.Add) and const_int(node.value) == 1
-            res.check("MONO", "%s: %s" % (fi.qual, norm_stmt(node)), ok, fi.loc(node), fi.qual, norm_stmt(node),
+            res.check(rule, "%s: %s" % (fi.qual, norm_stmt(node)), ok, fi.loc(node), fi.qual, norm_stmt(node),
                       "next_agent_id is written other than by '+= 1' outside the constructor: ids can be reused",
-                      key="MONO/%s/%s" % (fi.qual, norm_stmt(node)))
+                      key="%s/%s/%s" % (rule, fi.qual, norm_stmt(node)))
     # create_agent: factory gets next_agent_id, then exactly one increment on every path to the append
     create = idx.func(MODEL, "Model.create_agent")
     fac = [c for c in iter_calls(create.node) if isinstance(c.func, ast.Subscript) and (dotted(c.func.value) or "").endswith("agent_factories")]
     ok = bool(fac) and all(c.args and dotted(c.args[0]) == "self.next_agent_id" for c in fac)
-    res.check("MONO", "create_agent hands next_agent_id to the factory", ok, create.loc(), create.qual,
+    res.check(rule, "create_agent hands next_agent_id to the factory", ok, create.loc(), create.qual,
               src(fac[0]) if fac else "", "the factory is not called with self.next_agent_id as the new agent's id",
-              key="MONO/Model.create_agent/factory-arg")
+              key=rule + "/Model.create_agent/factory-arg")
     cfg = build_cfg(create.node, create.qual)
 
     def tr(node: Node, fact, label):
@@ -227,9 +216,28 @@ def check_c14(idx: Index, tier: str, res: Result) -> None:
     for nd in cfg.stmt_nodes():
         if any(call_name(c) == "append" and (call_recv(c) or "").endswith(".agents") for c in iter_calls(nd.ast)):
             ok = flow.at[nd.id] == {1}
-            res.check("MONO", "exactly one id increment before the agent is appended", ok, create.loc(nd.ast), create.qual,
+            res.check(rule, "exactly one id increment before the agent is appended", ok, create.loc(nd.ast), create.qual,
                       norm_stmt(nd.ast), "an agent can be appended after %s increments of next_agent_id" % sorted(flow.at[nd.id]),
-                      key="MONO/Model.create_agent/increments")
+                      key=rule + "/Model.create_agent/increments")
+
+    return create
+
+
+def check_c14(idx: Index, tier: str, res: Result) -> None:
+    res.explanation = ("Static decision of the registry discipline in Model: (1) the agent list is never indexed by an agent "
+                       "id, (2) next_agent_id only ever grows by one per created agent and is handed to the factory before it "
+                       "grows, (3) every function that rebinds or mutates the agent list also updates the type map, clearing "
+                       "functions clear both, (4) the id-keyed queries look agents up by comparing ids.")
+    res.rules = ["KIND: AgentId vs ListPos at every <x>.agents[...] subscript", "MONO: writes to next_agent_id",
+                 "COUPDATE: writers of agents vs writers of agent_type_map", "QUERY: shape of agent()/agent_count()/delete_agents()"]
+    res.not_decided = ["agreement when a user's agent sets agent_type different from the factory key",
+                       "results of random_agents (random choice)"]
+    _fixture_self_check(res)
+    mcls = idx.cls(MODEL, "Model")
+    n = agent_subscripts(idx, res, "C14", MODEL)
+    res.extra["agents_subscripts"] = n
+
+    create = id_source_rules(idx, res)
 
     # (3) co-update
     nwriters = 0
@@ -261,6 +269,35 @@ def check_c14(idx: Index, tier: str, res: Result) -> None:
                       "%s changes the agent list but not the per-type id lists: the queries disagree afterwards" % fi.qual,
                       key="COUPDATE/%s/map-not-updated" % fi.qual)
     res.floor("writers of Model.agents", nwriters, 5)
+    # every type owns its id list: the lists are appended to in place (create_agent), so one list installed under several types makes
+    # every type report the agents of all of them
+    nown = 0
+
+    def fresh_list(e: ast.AST) -> bool:
+        return isinstance(e, (ast.List, ast.ListComp)) or (isinstance(e, ast.Call) and call_name(e) in ("list", "sorted", "copy", "deepcopy"))
+    for fi in idx.all_funcs("BPTK_Py/modeling/"):
+        for node in walk_no_nested(fi.node):
+            if not isinstance(node, ast.Assign):
+                continue
+            for t in node.targets:
+                v = node.value
+                if isinstance(t, ast.Subscript) and (dotted(t.value) or "").endswith(".agent_type_map"):
+                    nown += 1
+                    res.check("COUPDATE", "%s installs a fresh id list per type" % fi.qual, fresh_list(v), fi.loc(node), fi.qual, norm_stmt(node),
+                              "%s installs %s as a type's id list; unless it is a new list for every type, appending an id under one type "
+                              "shows up under the others" % (fi.qual, src(v)[:50]), key="COUPDATE/%s/shared-id-list" % fi.qual)
+                elif (dotted(t) or "").endswith(".agent_type_map"):
+                    nown += 1
+                    ok = (isinstance(v, ast.Dict) and all(fresh_list(x) for x in v.values)) or (isinstance(v, ast.DictComp) and fresh_list(v.value)) \
+                        or (isinstance(v, ast.Call) and call_name(v) in ("dict", "defaultdict") and not v.args[1:] and
+                            all(isinstance(a, ast.Name) and a.id == "list" for a in v.args))
+                    shared = isinstance(v, ast.Call) and call_name(v) == "fromkeys" and len(v.args) == 2
+                    res.check("COUPDATE", "%s rebinds agent_type_map to a table of fresh lists" % fi.qual, ok, fi.loc(node), fi.qual, norm_stmt(node)[:100],
+                              ("%s builds the table with %s: dict.fromkeys stores the *same* list object under every key, so an id appended for one "
+                               "agent type appears in the id list (and the count) of every type" % (fi.qual, src(v)[:60])) if shared else
+                              "%s rebinds agent_type_map to %s, not to a table of new lists" % (fi.qual, src(v)[:60]),
+                              key="COUPDATE/%s/shared-id-list" % fi.qual)
+    res.floor("id-list installations in agent_type_map", nown, 6)
     # create_agent appends agent.id under the factory key
     app = [c for c in iter_calls(create.node) if call_name(c) == "append" and isinstance(c.func.value, ast.Subscript)
            and dotted(c.func.value.value) == "self.agent_type_map"]
@@ -370,12 +407,14 @@ def check_c11(idx: Index, tier: str, res: Result) -> None:
                        "event is delivered xor parked, parked events are re-enqueued after the agent loop and the park list "
                        "is reset; (4) handle_events empties the inbox on every normal exit; (5) distribution precedes the "
                        "agent loop.")
-    res.rules = ["KIND: id vs position at the delivery site", "PARITY: LIFO/FIFO stages of the three queues",
+    res.rules = ["UNIQUE: ids are never reissued (writes to next_agent_id)", "KIND: id vs position at the delivery site", "PARITY: LIFO/FIFO stages of the three queues",
                  "ONCE: delivered xor parked on the CFG of the distribution loop and of handle_delayed_event",
                  "DRAIN: must-pass-through the loop exit in Agent.handle_events"]
     res.not_decided = ["ceil(delay/dt) under the float countdown of DelayedEvent.delay (runtime arithmetic)",
                        "what user handlers do with an event"]
     _fixture_self_check(res)
+    # (0) an id names one agent for the life of the model (routing by id delivers to "the agent that has that id and no other")
+    id_source_rules(idx, res, "UNIQUE")
     run_step = idx.func(SIMSCHED, "SimultaneousScheduler.run_step")
     hde = idx.func(SCHED, "Scheduler.handle_delayed_event")
     enq = idx.func(MODEL, "Model.enqueue_event")
@@ -971,8 +1010,21 @@ def check_c12(idx: Index, tier: str, res: Result) -> None:
             sp[3]: _nf(ast.BinOp(left=_strip_int_deep(i_hi), op=ast.Sub(), right=ast.Constant(1)))}
     seen_vars = set()
     for cnd in conj:
-        if not (isinstance(cnd, ast.Compare) and len(cnd.ops) == 1 and isinstance(cnd.ops[0], ast.Eq) and isinstance(cnd.left, ast.Name)):
-            raise AnalysisError("unrecognised last-step predicate %r" % src(cnd))
+        if not (isinstance(cnd, ast.Compare) and len(cnd.ops) == 1 and isinstance(cnd.ops[0], (ast.Eq, ast.GtE)) and isinstance(cnd.left, ast.Name)
+                and cnd.left.id in want):
+            # a test over something else (a derived quantity such as the progress ratio) cannot pin the step: the quantities the scheduler
+            # derives from (round, step) are the same for several steps of the last round or reach their final value before the last step
+            inl = src(cnd)
+            for a_ in [x for x in ast.walk(cnd) if isinstance(x, ast.Attribute) and dotted(x) and (dotted(x) or "").startswith("self.")]:
+                defs = [n_ for n_ in walk_no_nested(rs.node) if isinstance(n_, ast.Assign) and dotted(n_.targets[0]) == dotted(a_)]
+                if len(defs) == 1:
+                    inl = inl.replace(src(a_), "(%s)" % src(defs[0].value))
+            res.find("LAST", "LAST/run_step/not-a-test-of-the-loop-variables", rs.loc(cnd), rs.qual, src(cnd),
+                     "with data collection off, statistics are recorded when `%s`%s; the rule accepts only tests of the loop variables against "
+                     "the loops' last values (%s == / >= %s - 1 and %s == / >= %s - 1): a test on a derived quantity is true for more than "
+                     "one step of the last round (or for none), so the final statistics are taken at the wrong time or several times"
+                     % (src(cnd), (" (= `%s`)" % inl) if inl != src(cnd) else "", sp[2], src(o_hi), sp[3], src(i_hi)))
+            continue
         v = cnd.left.id
         seen_vars.add(v)
         # the run() bounds are phrased over run()'s model parameter; rename for comparison
